@@ -125,7 +125,7 @@ func drawLayout(r *simkit.R, u *zz.Universe) {
 	nfam := r.Intn(3)
 	for f := 0; f < nfam && next+5 <= n; f++ {
 		cn := r.Intn(ncnr)
-		kind := r.Intn(3)
+		kind := r.Intn(4)
 		p := alloc()
 		pexp := expOrNone()
 		ps := &zz.Spec{ID: p, Cnr: cn, Kind: zz.KReg, Parent: -1, First: -1, Split: -1, Exp: pexp, Size: 64 + r.Intn(64), Target: -1, ECRule: -1, Virtual: true,
@@ -160,6 +160,14 @@ func drawLayout(r *simkit.R, u *zz.Universe) {
 			for i := 0; i < np; i++ {
 				e := alloc()
 				u.Specs[e] = &zz.Spec{ID: e, Cnr: cn, Kind: zz.KReg, Parent: p, First: -1, Split: -1, Exp: pexp, Size: 16, Target: -1, ECRule: 0, ECPart: i}
+			}
+		case 3: // three levels: root -> size-split part (virtual, last of a v1 chain) -> its EC parts
+			sp := alloc()
+			u.Specs[sp] = &zz.Spec{ID: sp, Cnr: cn, Kind: zz.KReg, Parent: p, First: -1, Split: 40 + f, Exp: childExp, Size: 32, Target: -1, ECRule: -1, Virtual: true}
+			np := 2 + r.Intn(2)
+			for i := 0; i < np; i++ {
+				e := alloc()
+				u.Specs[e] = &zz.Spec{ID: e, Cnr: cn, Kind: zz.KReg, Parent: sp, First: -1, Split: -1, Exp: childExp, Size: 16, Target: -1, ECRule: 0, ECPart: i}
 			}
 		}
 	}
